@@ -1,69 +1,199 @@
 //! C07 obligations: operator aliases lex to the same AST node (logical,
-//! unary, quantifier operators).
+//! unary, quantifier operators); `lex_combining_op` is layout-insensitive.
+//!
+//! Every case is a loop-free assert on a string literal (no symbolic selection
+//! of the spelling).  One harness per alias pair: every failed `expect` inside
+//! the generated lexer drops a `LexErrorKind`, whose drop glue (BTreeSet of the
+//! TypeMismatch variant) CBMC explores although it is dead - ~10 s apiece.
 use super::super::*;
 use crate::lex::verif_kani::common::is_suffix_at;
 
-fn check<T: for<'i> Lex<'i> + PartialEq>(spelling: &'static str, tail: &'static str, joined: &'static str, want: T) {
-    assert!(joined.len() == spelling.len() + tail.len());
-    match T::lex(joined) {
-        Ok((op, rest)) => {
-            assert!(op == want, "an alias denotes the same operator as the canonical spelling");
-            assert!(is_suffix_at(joined, rest, spelling.len()), "exactly the operator is consumed");
+/// `<$ty>::lex($s)` is `Ok(($v, rest))` with `rest` = `$s` minus its first `$n` bytes.
+macro_rules! lexes {
+    ($ty:ty, $s:literal, $n:literal, $v:pat) => {{
+        let s: &'static str = $s;
+        match <$ty as Lex<'_>>::lex(s) {
+            Ok((op, rest)) => {
+                assert!(matches!(op, $v), "an alias denotes the same operator as the canonical spelling");
+                assert!(is_suffix_at(s, rest, $n), "exactly the operator's characters are consumed");
+                kani::cover!(true, "spelling accepted");
+            }
+            Err(e) => {
+                std::mem::forget(e);
+                assert!(false, "every documented spelling is accepted");
+            }
         }
-        Err(e) => {
-            std::mem::forget(e);
-            assert!(false, "every documented spelling is accepted");
-        }
-    }
-}
-
-macro_rules! spellings {
-    ($ty:ty: $($s:literal => $v:expr),* $(,)?) => {{
-        $(
-            check::<$ty>($s, "", $s, $v);
-            check::<$ty>($s, " x", concat!($s, " x"), $v);
-            check::<$ty>($s, "(", concat!($s, "("), $v);
-        )*
     }};
 }
 
-/// and/&&, or/||, xor/^^
-#[kani::proof]
-#[kani::unwind(8)]
-fn logical_op_aliases__same_variant() {
-    spellings!(LogicalOp:
-        "or" => LogicalOp::Or, "||" => LogicalOp::Or,
-        "xor" => LogicalOp::Xor, "^^" => LogicalOp::Xor,
-        "and" => LogicalOp::And, "&&" => LogicalOp::And,
-    );
-    let r = LogicalOp::lex("|");
-    assert!(r.is_err());
-    std::mem::forget(r);
-    let r = LogicalOp::lex("&");
-    assert!(r.is_err(), "& alone is not the logical and");
-    std::mem::forget(r);
+/// `<$ty>::lex($s)` is an error.
+macro_rules! rejects {
+    ($ty:ty, $s:literal) => {{
+        let r = <$ty as Lex<'_>>::lex($s);
+        assert!(r.is_err(), "not an operator spelling");
+        kani::cover!(r.is_err(), "rejected");
+        std::mem::forget(r);
+    }};
 }
 
-/// not/!, any, all
 #[kani::proof]
-#[kani::unwind(8)]
-fn unary_and_quantifier_aliases__same_variant() {
-    spellings!(UnaryOp: "not" => UnaryOp::Not, "!" => UnaryOp::Not);
-    spellings!(QuantifierOp: "any" => QuantifierOp::Any, "all" => QuantifierOp::All);
+#[kani::unwind(4)]
+fn logical_op__or_aliases() {
+    lexes!(LogicalOp, "or", 2, LogicalOp::Or);
+    lexes!(LogicalOp, "||", 2, LogicalOp::Or);
+    lexes!(LogicalOp, "or x", 2, LogicalOp::Or);
+    lexes!(LogicalOp, "|| x", 2, LogicalOp::Or);
+    lexes!(LogicalOp, "||x", 2, LogicalOp::Or);
 }
 
-/// K3: lex_combining_op: skips white space on both sides of an operator and
-/// leaves the input untouched when there is none.
 #[kani::proof]
-#[kani::unwind(8)]
-fn lex_combining_op__space_insensitive() {
+#[kani::unwind(5)]
+fn logical_op__xor_aliases() {
+    lexes!(LogicalOp, "xor", 3, LogicalOp::Xor);
+    lexes!(LogicalOp, "^^", 2, LogicalOp::Xor);
+    lexes!(LogicalOp, "xor x", 3, LogicalOp::Xor);
+    lexes!(LogicalOp, "^^ x", 2, LogicalOp::Xor);
+    lexes!(LogicalOp, "^^x", 2, LogicalOp::Xor);
+}
+
+#[kani::proof]
+#[kani::unwind(5)]
+fn logical_op__and_aliases() {
+    lexes!(LogicalOp, "and", 3, LogicalOp::And);
+    lexes!(LogicalOp, "&&", 2, LogicalOp::And);
+    lexes!(LogicalOp, "and x", 3, LogicalOp::And);
+    lexes!(LogicalOp, "&& x", 2, LogicalOp::And);
+    lexes!(LogicalOp, "&&x", 2, LogicalOp::And);
+}
+
+/// A single `|`, `&` or `^` is not a logical operator (`&` is the integer
+/// bitwise_and of comparisons).
+#[kani::proof]
+#[kani::unwind(4)]
+fn logical_op__single_char_rejected() {
+    rejects!(LogicalOp, "| x");
+    rejects!(LogicalOp, "& x");
+    rejects!(LogicalOp, "^ x");
+}
+
+/// not / !  (and `!` directly followed by `=`-less text is still the unary operator)
+#[kani::proof]
+#[kani::unwind(5)]
+fn unary_op__not_aliases() {
+    lexes!(UnaryOp, "not", 3, UnaryOp::Not);
+    lexes!(UnaryOp, "!", 1, UnaryOp::Not);
+    lexes!(UnaryOp, "not x", 3, UnaryOp::Not);
+    lexes!(UnaryOp, "! x", 1, UnaryOp::Not);
+    lexes!(UnaryOp, "!x", 1, UnaryOp::Not);
+    rejects!(UnaryOp, "x");
+}
+
+/// any, all
+#[kani::proof]
+#[kani::unwind(5)]
+fn quantifier_op__any_all() {
+    lexes!(QuantifierOp, "any", 3, QuantifierOp::Any);
+    lexes!(QuantifierOp, "all", 3, QuantifierOp::All);
+    lexes!(QuantifierOp, "any x", 3, QuantifierOp::Any);
+    lexes!(QuantifierOp, "all x", 3, QuantifierOp::All);
+    lexes!(QuantifierOp, "any(", 3, QuantifierOp::Any);
+    lexes!(QuantifierOp, "all(", 3, QuantifierOp::All);
+}
+
+/// K3: lex_combining_op skips spaces / CR / LF on both sides of an operator,
+/// returns the same operator for both spellings and every layout, and leaves
+/// the input untouched when there is no operator.
+#[kani::proof]
+#[kani::unwind(5)]
+fn lex_combining_op__space_insensitive_and() {
     let s = " \n&& \r x";
     let (op, rest) = LogicalExpr::lex_combining_op(s);
-    assert!(op == Some(LogicalOp::And) && is_suffix_at(s, rest, 7));
-    let s2 = "and x";
-    let (op2, rest2) = LogicalExpr::lex_combining_op(s2);
-    assert!(op2 == Some(LogicalOp::And) && is_suffix_at(s2, rest2, 4), "layout does not change the operator");
-    let s3 = "  )";
-    let (op3, rest3) = LogicalExpr::lex_combining_op(s3);
-    assert!(op3.is_none() && is_suffix_at(s3, rest3, 0), "no operator: input untouched");
+    assert!(matches!(op, Some(LogicalOp::And)) && is_suffix_at(s, rest, 7), "spaces and line breaks around the operator are skipped");
+    let s = "and x";
+    let (op, rest) = LogicalExpr::lex_combining_op(s);
+    assert!(matches!(op, Some(LogicalOp::And)) && is_suffix_at(s, rest, 4), "layout and spelling do not change the operator");
+    let s = "&&x";
+    let (op, rest) = LogicalExpr::lex_combining_op(s);
+    assert!(matches!(op, Some(LogicalOp::And)) && is_suffix_at(s, rest, 2));
+    kani::cover!(true);
+}
+
+#[kani::proof]
+#[kani::unwind(5)]
+fn lex_combining_op__space_insensitive_or_xor() {
+    let s = "\r\n|| x";
+    let (op, rest) = LogicalExpr::lex_combining_op(s);
+    assert!(matches!(op, Some(LogicalOp::Or)) && is_suffix_at(s, rest, 5));
+    let s = " or\nx";
+    let (op, rest) = LogicalExpr::lex_combining_op(s);
+    assert!(matches!(op, Some(LogicalOp::Or)) && is_suffix_at(s, rest, 4));
+    let s = " xor  x";
+    let (op, rest) = LogicalExpr::lex_combining_op(s);
+    assert!(matches!(op, Some(LogicalOp::Xor)) && is_suffix_at(s, rest, 6));
+    let s = "^^x";
+    let (op, rest) = LogicalExpr::lex_combining_op(s);
+    assert!(matches!(op, Some(LogicalOp::Xor)) && is_suffix_at(s, rest, 2));
+    kani::cover!(true);
+}
+
+#[kani::proof]
+#[kani::unwind(5)]
+fn lex_combining_op__no_operator_input_untouched() {
+    let s = "  )";
+    let (op, rest) = LogicalExpr::lex_combining_op(s);
+    assert!(op.is_none() && is_suffix_at(s, rest, 0), "no operator: input untouched");
+    let s = "";
+    let (op, rest) = LogicalExpr::lex_combining_op(s);
+    assert!(op.is_none() && is_suffix_at(s, rest, 0));
+    kani::cover!(true);
+}
+
+#[kani::proof]
+#[kani::unwind(4)]
+fn probe_a() {
+    lexes!(LogicalOp, "or", 2, LogicalOp::Or);
+}
+
+#[kani::proof]
+#[kani::unwind(4)]
+fn probe_b() {
+    lexes!(LogicalOp, "||", 2, LogicalOp::Or);
+}
+
+#[kani::proof]
+#[kani::unwind(4)]
+fn probe_c() {
+    let r = expect("or", "or");
+    assert!(r.is_ok());
+    std::mem::forget(r);
+}
+
+#[kani::proof]
+#[kani::unwind(4)]
+fn probe_d() {
+    let r = expect("or", "or");
+    assert!(r.is_ok());
+    drop(r);
+}
+
+#[kani::proof]
+#[kani::unwind(4)]
+fn probe_e() {
+    let r = expect("or", "||");
+    assert!(r.is_err());
+    drop(r);
+}
+
+#[kani::proof]
+#[kani::unwind(4)]
+fn probe_f() {
+    let r: Result<&str, LexError<'_>> = Err((LexErrorKind::ExpectedLiteral("x"), "y"));
+    drop(r);
+}
+
+#[kani::proof]
+#[kani::unwind(4)]
+fn probe_g() {
+    let r = LexErrorKind::ExpectedLiteral("x");
+    drop(r);
 }
